@@ -439,6 +439,21 @@ def run_extras(work, vh, rep, seed, tier):
     rep.add_tlc(r)
     rep.extra["extras"] = {"events": r.nlines, "differences": notes,
                            "covers": "move priority queue, First(), MVV-LVA priorities, stable sort, Selection(), WriteLimited tables, books built from lines"}
+    # searches restricted to a line (search.Context.Ponder): reference value over the restricted tree
+    ptrace = work.path("ponder.ndjson")
+    vlib.run_harness(work, vh, ["searchtrace", "-mode", "x03", "-seed", seed, "-n", 20 if tier == "quick" else 400, "-depth", 3,
+                                "-cfgs", "hash,morlock,qshash,bernstein,forcing", "-limit", 30000, "-out", ptrace])
+    pr = vlib.validate_trace(work, "TraceSearch", ["X03"], ptrace, timeout=3000, heap="4g")
+    if pr.error is not None:
+        raise Inconclusive("ponder validation failed: %s" % pr.error)
+    pnotes = {}
+    for lineno, names in pr.fails:
+        for nm in names:
+            pnotes[nm] = pnotes.get(nm, 0) + 1
+    for nm, n in sorted(pnotes.items()):
+        print("NOTE extra behaviour (not a listed property) differs from the specification: %s (%d events)" % (nm, n))
+    rep.add_tlc(pr)
+    rep.extra["extras"]["ponder_line_searches"] = {"events": pr.nlines, "differences": pnotes}
 
 
 def run_console_extras(work, vh, rep, tier):
